@@ -28,7 +28,7 @@ def sh(cmd, **kw):
 
 def main():
     src, k, name, owner = sys.argv[1], sys.argv[2], sys.argv[3], sys.argv[4]
-    ids = sys.argv[5:] or [owner]
+    ids = [owner] + [x for x in sys.argv[5:] if x != owner]
     patch = os.path.join(src, f"patch{k}.diff")
     demo = os.path.join(src, f"demo{k}.py")
     notes = os.path.join(src, f"notes{k}.md")
